@@ -608,6 +608,13 @@ pub fn hostile_families() -> Vec<(&'static str, HSpec)> {
         ("longsize-2p40-second", HSpec { long_sizes: Some(vec![5, 1u64 << 40]), ..hs(&["/a/"], vec![hf(0, "f", r, "", "short"), hf(0, "g", r, "", "12345")]) }),
         ("longsize-isize-max", HSpec { long_sizes: Some(vec![(1u64 << 63) - 1]), ..hs(&["/a/"], vec![hf(0, "f", r, "", "x")]) }),
         ("longsize-true", HSpec { long_sizes: Some(vec![5, 5]), ..hs(&["/a/"], vec![hf(0, "f", r, "", "short"), hf(0, "g", r, "", "12345")]) }),
+        // relative directory names (the way source packages record their files) with a symbolic link FIRST in the archive
+        // (seed C12-10: a directory in the way of a link removed with remove_dir — the still empty target itself)
+        ("rel-link-first", HSpec { named: true, ..hs(&["aasrc/", "/"], vec![hf(0, "l", LNK | 0o777, "/decoy", ""), hf(1, "zz-planted.txt", r, "", "planted")]) }),
+        ("rel-link-first-stripped", hs(&["aasrc/", "/"], vec![hf(0, "l", LNK | 0o777, "/decoy", ""), hf(1, "zz-planted.txt", r, "", "planted")])),
+        ("rel-link-plain", HSpec { named: true, ..hs(&["", "/"], vec![hf(0, "l", LNK | 0o777, "/decoy", ""), hf(1, "zz", r, "", "planted")]) }),
+        ("rel-link-dir-in-way", HSpec { named: true, ..hs(&["/", "/d/"], vec![hf(0, "d", LNK | 0o777, "/decoy", ""), hf(0, "zz", r, "", "planted")]) }),
+        ("rel-link-to-rel-outside", HSpec { named: true, ..hs(&["x/", "/"], vec![hf(0, "l", LNK | 0o777, "../decoy", ""), hf(1, "l2", r, "", "planted")]) }),
         // absolute base name (Path::join replaces the directory)
         ("abs-base", hs(&["/usr/"], vec![hf(0, "/decoy/file", r, "", "contained")])),
         ("abs-base-dotdot", hs(&["/usr/"], vec![hf(0, "/../decoy/file", r, "", "pwned")])),
